@@ -2541,3 +2541,24 @@ TWINS += [
 '''),
     ]},
 ]
+
+# ---- round 5: the chunk-size reader must accept every well-formed size line the terminator check would accept (CRLF / LF) ----
+_RD_LINE = '            line = self._rfile.readline().decode("latin1")\n'
+_RD_INT = "            _len = int(line.strip(), 16)\n"
+_RD_TRY = "        try:\n" + _RD_LINE + _RD_INT
+MUTANTS += [
+    {"name": "size-line-must-end-in-crlf", "expect": "R19.3", "edits": [(S, _RD_TRY, '        line = self._rfile.readline().decode("latin1")\n\n        if not line.endswith("\\r\\n"):\n            raise OSError("Unexpected end of chunked data")\n\n        try:\n' + _RD_INT)]},
+    {"name": "size-line-raw-tail-compared-with-crlf", "expect": "R19.3", "edits": [(S, _RD_LINE, '            raw = self._rfile.readline()\n            if raw[-2:] != b"\\r\\n":\n                raise OSError("Invalid chunk header")\n            line = raw.decode("latin1")\n')]},
+    {"name": "size-line-split-at-crlf-only", "expect": "R19.3", "edits": [(S, _RD_INT, '            digits, sep, _rest = line.partition("\\r\\n")\n            if not sep:\n                raise OSError("Invalid chunk header")\n            _len = int(digits.strip(), 16)\n')]},
+    {"name": "size-line-assumes-two-terminator-bytes", "expect": "R19.3", "edits": [(S, _RD_INT, "            _len = int(line[:-2], 16)\n")]},
+    {"name": "size-line-decimal-digits-only", "expect": "R19.3", "edits": [(S, _RD_INT, '            if not line.strip().isdigit():\n                raise OSError("Invalid chunk header")\n            _len = int(line.strip(), 16)\n')]},
+    {"name": "size-line-of-more-than-one-digit-refused", "expect": "R19.3", "edits": [(S, _RD_INT, '            if len(line.strip()) > 1:\n                raise OSError("Chunk too large")\n            _len = int(line.strip(), 16)\n')]},
+]
+TWINS += [
+    {"name": "size-line-parsed-without-strip", "edits": [(S, _RD_INT, "            _len = int(line, 16)\n")]},
+    {"name": "size-line-empty-refused-before-parsing", "edits": [(S, _RD_INT, '            if not line:\n                raise OSError("Unexpected end of chunked data")\n            _len = int(line.strip(), 16)\n')]},
+    {"name": "size-line-read-then-decoded", "edits": [(S, _RD_LINE, '            raw = self._rfile.readline()\n            line = raw.decode("latin1")\n')]},
+    {"name": "size-line-terminator-stripped-first", "edits": [(S, _RD_INT, '            line = line.rstrip("\\r\\n")\n            _len = int(line.strip(), 16)\n')]},
+    {"name": "size-line-read-outside-the-try", "edits": [(S, _RD_TRY, '        line = self._rfile.readline().decode("latin1")\n\n        try:\n' + _RD_INT)]},
+    {"name": "size-line-text-in-a-local", "edits": [(S, _RD_INT, "            digits = line.strip()\n            _len = int(digits, 16)\n")]},
+]
